@@ -172,7 +172,11 @@ def operations(obj):
             for fac in (0.5, 2.0, 1.00002):
                 def op(o, n=name, fac=fac):
                     cur = getattr(o, n)
-                    setattr(o, n, fac * cur if cur != 0 else 0.3)
+                    target = fac * cur if cur != 0 else 0.3
+                    setattr(o, n, target)
+                    got = getattr(o, n)
+                    if not abs(float(got) - float(target)) <= 1e-9 * abs(float(target)):
+                        raise MustRaise(f"{n} was assigned {float(target)!r} but reads back {float(got)!r}")
                 ops[f"{name}*={fac}"] = op
             ops[f"{name}=-1 (must raise)"] = lambda o, n=name: _must_raise(o, n, -1.0)
     for m in ("diagonalize_inertia", "merge_faces", "sort_faces", "to_hoomd"):
